@@ -22,6 +22,14 @@ fn quad2<'a>(p: &[Var<'a>], _d: &[&[f64]]) -> Var<'a> {
 fn quad3<'a>(p: &[Var<'a>], _d: &[&[f64]]) -> Var<'a> {
     p[0] * p[0] * 2.0 + p[1] * p[1] + p[2] * p[2] * 0.5 + p[0] * p[2] - p[1] * p[2] * 0.5 + p[1] - p[2] * 3.0
 }
+/// convex quadratic in 8 dimensions: sum (i+1)/4 * (x_i - c_i)^2 + 0.1 * sum x_i x_{i+1}
+fn quad8<'a>(p: &[Var<'a>], d: &[&[f64]]) -> Var<'a> {
+    let mut s = (p[0] - d[0][0]).powi(2) * 0.25;
+    for i in 1..8 {
+        s = s + (p[i] - d[0][i]).powi(2) * ((i + 1) as f64 * 0.25) + p[i] * p[i - 1] * 0.1;
+    }
+    s
+}
 fn saddle<'a>(p: &[Var<'a>], _d: &[&[f64]]) -> Var<'a> {
     p[0] * p[0] - p[1] * p[1] * 0.25 + p[0] * p[1] * 0.5
 }
@@ -58,6 +66,26 @@ fn problems() -> Vec<Problem> {
         Problem { name: "quad1(a=.5,c=3)", f: quad1, data: vec![vec![0.5, 3.0]], starts: vec![vec![0.0], vec![10.0]], grad: |p, d| vec![2.0 * d[0][0] * (p[0] - d[0][1])], max_step: 0.5 },
         Problem { name: "quad2", f: quad2, data: vec![vec![0.0]], starts: vec![vec![1.0, 1.0], vec![-2.0, 0.5]], grad: |p, _| vec![2.0 * p[0] + p[1] - 2.0, 6.0 * p[1] + p[0]], max_step: 0.25 },
         Problem { name: "quad3", f: quad3, data: vec![vec![0.0]], starts: vec![vec![1.0, -1.0, 2.0], vec![0.0, 0.0, 0.0]], grad: |p, _| vec![4.0 * p[0] + p[2], 2.0 * p[1] - 0.5 * p[2] + 1.0, p[2] + p[0] - 0.5 * p[1] - 3.0], max_step: 0.25 },
+        Problem {
+            name: "quad8",
+            f: quad8,
+            data: vec![vec![1.0, -1.0, 0.5, 2.0, 0.0, -0.5, 1.5, -2.0]],
+            starts: vec![vec![0.0; 8], vec![3.0, -3.0, 3.0, -3.0, 3.0, -3.0, 3.0, -3.0]],
+            grad: |p, d| {
+                let mut g = vec![0.0; 8];
+                for i in 0..8 {
+                    g[i] = 2.0 * ((i + 1) as f64 * 0.25) * (p[i] - d[0][i]);
+                    if i > 0 {
+                        g[i] += 0.1 * p[i - 1];
+                    }
+                    if i < 7 {
+                        g[i] += 0.1 * p[i + 1];
+                    }
+                }
+                g
+            },
+            max_step: 0.25,
+        },
         Problem { name: "saddle", f: saddle, data: vec![vec![0.0]], starts: vec![vec![1.0, 0.5], vec![-0.5, 0.0]], grad: |p, _| vec![2.0 * p[0] + 0.5 * p[1], -0.5 * p[1] + 0.5 * p[0]], max_step: 0.5 },
         Problem { name: "rosenbrock", f: rosenbrock, data: vec![vec![1.0, 100.0]], starts: vec![vec![0.0, 0.0], vec![-1.2, 1.0]], grad: |p, d| vec![-2.0 * (d[0][0] - p[0]) - 4.0 * d[0][1] * p[0] * (p[1] - p[0] * p[0]), 2.0 * d[0][1] * (p[1] - p[0] * p[0])], max_step: 1e-3 },
         Problem {
@@ -363,7 +391,7 @@ struct LmProblem {
 fn lm_problems() -> Vec<LmProblem> {
     let mut v = Vec::new();
     let noise = |i: usize| [0.3, -0.2, 0.1, -0.4, 0.25, 0.0, -0.15][i % 7];
-    for &n in &[5usize, 12, 40] {
+    for &n in &[5usize, 12, 40, 200] {
         let xs: Vec<f64> = (0..n).map(|i| i as f64 * 0.5 - 1.0).collect();
         v.push(LmProblem { name: "line", f: lm_line, linear: true, eval: |p, x| p[0] + p[1] * x, jac: |_, x| vec![1.0, x], xs: xs.clone(), ys: xs.iter().enumerate().map(|(i, x)| 2.0 - 3.0 * x + noise(i)).collect(), starts: vec![vec![0.0, 0.0], vec![50.0, -40.0], vec![2.0, -3.0]] });
         v.push(LmProblem { name: "quadratic", f: lm_quadr, linear: true, eval: |p, x| p[0] + p[1] * x + p[2] * x * x, jac: |_, x| vec![1.0, x, x * x], xs: xs.clone(), ys: xs.iter().enumerate().map(|(i, x)| 1.0 + 0.5 * x - 0.25 * x * x + noise(i)).collect(), starts: vec![vec![0.0, 0.0, 0.0], vec![-20.0, 10.0, 5.0]] });
@@ -609,7 +637,7 @@ fn dd_solve(a: &[DD], b: &[DD], n: usize) -> Option<Vec<f64>> {
 }
 
 pub fn run(run: &Run) {
-    run.rule("Adam and SGD (plain, momentum, Nesterov): 9 objectives (convex and indefinite quadratics in 1..3 dimensions, Rosenbrock, least-squares losses built from exp, sin, powi and division) × 2 starts × step sizes {1e-4,1e-2,.25,.5} (capped per objective) × β1,β2 in {.5,.9,.999}² / momentum {0,.5,.9,.99} × Nesterov on/off × every budget k in 0..=32 and every 8th to 200 (0..=64 and every 8th to 2000 thorough), each compared with the published recurrence stepped by the harness; LM: linear (constant, line, quadratic, cubic), exponential and logistic curve fits with fixed noise patterns, 5/12/40 points, good and poor starts, every budget 0..=60 (200) and 200; every (configuration, budget) pair is a distinct non-trivial case");
+    run.rule("Adam and SGD (plain, momentum, Nesterov): 10 objectives (convex and indefinite quadratics in 1..3 and 8 dimensions, Rosenbrock, least-squares losses built from exp, sin, powi and division) × 2 starts × step sizes {1e-4,1e-2,.25,.5} (capped per objective) × β1,β2 in {.5,.9,.999}² / momentum {0,.5,.9,.99} × Nesterov on/off × every budget k in 0..=32 and every 8th to 200 (0..=64 and every 8th to 2000 thorough), each compared with the published recurrence stepped by the harness; LM: linear (constant, line, quadratic, cubic), exponential and logistic curve fits with fixed noise patterns, 5/12/40/200 points, good and poor starts, every budget 0..=60 (200) and 200; every (configuration, budget) pair is a distinct non-trivial case");
     let _ = Vector::new(vec![0.0]);
     first_order(run);
     lm_suite(run);
